@@ -19,6 +19,7 @@ func analyzeCmd(args []string) int {
 	seq := fs.Bool("seq", false, "sequential")
 	sanity := fs.Bool("sanity", false, "gob round trip of every fact")
 	sites := fs.Bool("sites", false, "include site identities of InferredMap facts")
+	trig := fs.Bool("triggers", false, "include the full triggers of the assertion analyzer and the function contracts")
 	var kv multi
 	fs.Var(&kv, "flag", "k=v nilaway_config flag")
 	_ = fs.Parse(args)
@@ -27,7 +28,7 @@ func analyzeCmd(args []string) int {
 		k, v, _ := strings.Cut(s, "=")
 		flags[k] = v
 	}
-	res, err := driver.Run(driver.Options{Dir: *dir, Patterns: fs.Args(), Flags: flags, Sequential: *seq, SanityCheck: *sanity, Sites: *sites})
+	res, err := driver.Run(driver.Options{Dir: *dir, Patterns: fs.Args(), Flags: flags, Sequential: *seq, SanityCheck: *sanity, Sites: *sites, Triggers: *trig})
 	if err != nil {
 		fmt.Fprintln(os.Stderr, err)
 		return 2
